@@ -7,6 +7,7 @@ import Larking.Lemmas.LexerComplete
 import Larking.Lemmas.Routes
 import Larking.Lemmas.VarIndexComplete
 import Larking.Lemmas.LiteralRoute
+import Larking.Lemmas.Commute
 /-
   C02 — Routing completeness, literal-over-wildcard precedence, order independence.
 -/
@@ -268,6 +269,48 @@ theorem literal_route_dispatches (conv) (hconv : ∀ f t, conv f t = true) (g : 
   refine ⟨m, caps, ?_⟩
   simp only [matchPath, hbt, l.render_eq, lexPath_complete Gen.tokenCap l.segs hpath hpcap, hs]
 
+/-- **Order independence of registration.** Take the bindings of a rule list (primary and
+additional, none nested) in ANY other order — rules permuted, bindings moved between positions:
+if the first list is accepted, so is the second, and the two tries are EQUAL (Go's maps being
+kept in a canonical sorted form, the variables slice being sorted by the code itself), so every
+request is routed identically. Hypotheses: no two bindings end in the same slot — the same way
+through the trie and the same kind (two methods there are refused in either order; two bindings
+of one method there are the recorded order dependence, `KNOWN_FINDINGS`) — and equal pattern text
+means equal pattern tokens (`g`). -/
+theorem registration_order_independent (g : Bytes → List Tok)
+    (rs1 rs2 : List (Rule × Nat × (List Bytes → Option Nat)))
+    (hperm : (stepsOf rs1).Perm (stepsOf rs2))
+    (hn1 : ∀ e ∈ rs1, ∀ p ∈ e.1.additional, p.2 = false)
+    (hn2 : ∀ e ∈ rs2, ∀ p ∈ e.1.additional, p.2 = false)
+    (hslots : (stepsOf rs1).Pairwise (DistinctSlots Gen.tokenCap))
+    (hg : ∀ s ∈ stepsOf rs1, BindingG Gen.tokenCap g s.resolve s.b)
+    (t : Node) (h : buildAll Gen.tokenCap rs1 .empty = .ok t) :
+    buildAll Gen.tokenCap rs2 .empty = .ok t := by
+  rw [buildAll_eq_addAll Gen.tokenCap rs1 .empty hn1] at h
+  rw [buildAll_eq_addAll Gen.tokenCap rs2 .empty hn2]
+  exact addAll_perm Gen.tokenCap g _ _ hperm hslots hg .empty t h
+
+/-- … in particular for the rules themselves in any other order. -/
+theorem rule_order_independent (g : Bytes → List Tok)
+    (rs1 rs2 : List (Rule × Nat × (List Bytes → Option Nat))) (hperm : rs1.Perm rs2)
+    (hn1 : ∀ e ∈ rs1, ∀ p ∈ e.1.additional, p.2 = false)
+    (hslots : (stepsOf rs1).Pairwise (DistinctSlots Gen.tokenCap))
+    (hg : ∀ s ∈ stepsOf rs1, BindingG Gen.tokenCap g s.resolve s.b)
+    (t : Node) (h : buildAll Gen.tokenCap rs1 .empty = .ok t) (conv) (verb : Bytes) (toks : List Tok) :
+    ∃ t2, buildAll Gen.tokenCap rs2 .empty = .ok t2 ∧ search conv verb t2 toks = search conv verb t toks :=
+  ⟨t, registration_order_independent g rs1 rs2 (hperm.flatMap_right _) hn1
+    (fun e he => hn1 e (hperm.mem_iff.mpr he)) hslots hg t h, rfl⟩
+
+/-- two bindings, either order: the same trie (the adjacent swap everything above is built from). -/
+theorem two_bindings_commute (g : Bytes → List Tok) (s1 s2 : Step) (t a ab : Node)
+    (hg1 : BindingG Gen.tokenCap g s1.resolve s1.b) (hg2 : BindingG Gen.tokenCap g s2.resolve s2.b)
+    (hd : DistinctSlots Gen.tokenCap s1 s2)
+    (h1 : addBinding Gen.tokenCap s1.resolve t s1.b s1.mid = .ok a)
+    (h2 : addBinding Gen.tokenCap s2.resolve a s2.b s2.mid = .ok ab) :
+    ∃ b, addBinding Gen.tokenCap s2.resolve t s2.b s2.mid = .ok b ∧
+      addBinding Gen.tokenCap s1.resolve b s1.b s1.mid = .ok ab :=
+  addBinding_swap Gen.tokenCap g s1 s2 t a ab hg1 hg2 hd h1 h2
+
 -- non-vacuity: GET "/v/{a=s/*}" and the request tokens of "/v/s/x"
 private def pu (c : Nat) : Rune := ⟨[UInt8.ofNat c], c, false, false, false, false⟩
 private def le (c : Nat) : Rune := ⟨[UInt8.ofNat c], c, true, true, true, true⟩
@@ -309,6 +352,17 @@ example : lEx.toTmpl.Wf ∧ WfPath lEx.segs ∧ lEx.Ascii ∧ lEx.toTmpl.toks.le
     · intro p hp
       simp only [lEx, Option.some.injEq] at hp
       subst hp; decide
+-- non-vacuity of the order theorems: GET "/v/{a=s/*}" for method 1 and POST on the same template for method 2
+private def rsEx : List (Rule × Nat × (List Bytes → Option Nat)) :=
+  [(⟨bEx, []⟩, 1, fun _ => some 0), (⟨{ bEx with verb := [80, 79, 83, 84], rule := 1 }, []⟩, 2, fun _ => some 0)]
+example : (stepsOf rsEx).Pairwise (DistinctSlots Gen.tokenCap) := by
+  simp only [stepsOf, rsEx, ruleSteps, Rule.bindings, List.flatMap_cons, List.flatMap_nil, List.map_cons, List.map_nil,
+    List.append_nil, List.singleton_append, List.pairwise_cons, List.mem_singleton, forall_eq,
+    List.not_mem_nil, false_imp_iff, implies_true, List.Pairwise.nil, and_true]
+  unfold DistinctSlots
+  decide
+example : ∃ t, buildAll Gen.tokenCap rsEx .empty = .ok t ∧ buildAll Gen.tokenCap rsEx.reverse .empty = .ok t :=
+  ⟨_, rfl, rfl⟩
 example : BindingG Gen.tokenCap (fun _ => [⟨.literal, [115]⟩, ⟨.slash, [47]⟩, ⟨.star, [42]⟩]) (fun _ => some 0) bEx := by
   intro es he e hmem
   have h2 : bindingEdges Gen.tokenCap (fun _ => some 0) bEx = some esEx := by decide
@@ -333,3 +387,6 @@ end Larking.Props.C02
 #print axioms Larking.Props.C02.accepted_rules_route_their_instances
 #print axioms Larking.Props.C02.grammar_binding_edges
 #print axioms Larking.Props.C02.literal_route_dispatches
+#print axioms Larking.Props.C02.registration_order_independent
+#print axioms Larking.Props.C02.rule_order_independent
+#print axioms Larking.Props.C02.two_bindings_commute
